@@ -1861,7 +1861,7 @@ def filter_block_comment(language: Language, text: str, style: str, indent: int 
         ) from ke
 
     return _make_block_comment(
-        text=text,
+        text=re.sub(r"\\(?=\s|\Z)", r"\\.", text).replace("??", "?\\?"),  # no line splice, no trigraph inside the comment
         prefix=config_style["prefix"],
         comment=config_style["comment"],
         suffix=config_style["suffix"],
